@@ -148,3 +148,18 @@ CLAIMED["C06"] = dict(category=_MC,
          "annotations, scope constraints, link template id / new id / bindings, structurally equal conditions) to equal the text-parsed one.",
     note="bounded by the pools of MC_Formats.tla; the abstract-policy-to-text tie is C05's; evaluation equality follows from structural equality (C02).",
     technique="TLA+ specification of the JSON format (EstOf) + TLC-generated cases replayed through every conversion hop; hop projections validated by TLC (translation-validation flavour)")
+ENGINES[0]["serves_properties"] += ["C09", "C10"]
+CLAIMED["C09"] = dict(category=_MC,
+    text="SchemaSyntax.tla is the unresolved abstract schema and its meaning: ScResolve (candidate order NS::X then X, common type before entity type, builtins as common "
+         "types of the empty namespace, __cedar::, common-type inlining), ScProblems (RFC-70 shadowing, undefined references, reserved names, cycles) and ScCanon. TLC "
+         "enumerates layouts of a subject name x reference namespace x raw-name form x admitted kind x 12 positions x action variants; the harness renders each schema "
+         "in both syntaxes (8 styles), loads it, translates with the library in every direction, reloads; TLC compares the projection of every ValidatorSchema with "
+         "ScResolve and with its source, and acceptance with ScOk.",
+    note="bounded by the generator tables (4.9k schemas quick, 13k thorough); schemas are small (<=3 namespaces); annotations compared on fragments. One known finding "
+         "(to_cedarschema silently lossy) is classified by the trace spec and listed in known_findings.json.")
+CLAIMED["C10"] = dict(category=_MC,
+    text="EntityJson.tla defines JSON trees, value templates, every explicit/implicit spelling of a value (EjForms), the escape-directed decoder EjDecNS and the "
+         "type-directed decoder EjDec over schema Sc10 (extension-typed attributes, tags, enum, look-alike records). TLC proves on the spec that every spelling decodes to "
+         "the template's value and emits the documents; the harness parses Entity / Entities / Context with and without schema through every reader, serialises with "
+         "every writer, reparses; TLC decodes the serialised trees with the spec and compares values, ancestors, tags and deep_eq verdicts.",
+    note="bounded: 1.3k documents over one schema family; no namespaced type names, unknowns or open records.")
